@@ -55,6 +55,7 @@ def names_for(rng, n):
 def linear_system(rng, n, names, nlines):
     rows, text = [], []
     linear_system.last_pair = None
+    linear_system.vacuous_false_equalities = 0
     for _ in range(nlines):
         a = [coef(rng) for _ in range(n)]
         if not any(a): a[rng.randrange(n)] = rng.choice([1.0, -2.0])
@@ -67,6 +68,7 @@ def linear_system(rng, n, names, nlines):
             rhs = '%s + %s*%s' % (fmt(b), fmt(cr), names[j]); a[j] -= cr
         else: rhs = fmt(b)
         rows.append((a, cmp, b)); text.append('%s %s %s' % (terms, cmp, rhs))
+        if cmp == '=' and not any(a) and b != 0: linear_system.vacuous_false_equalities += 1      # the variables cancel: '0 = b'
     if rng.random() < 0.25 and len(rows) < 4:
         # a scaled copy of an existing line with another comparator: the pair may pinch the solution set to an equality
         # (>= with <=), or be contradictory (> with <), or be redundant; whatever simplify returns must have the same solution set
@@ -183,7 +185,8 @@ def run_linear(rng, obs):
         obs.skip('no result'); return
     pts = sample_points(rng, n, rows, 60)
     onout = points_on_output(rng, cases, names, 20)
-    seen = compare(obs, rng, text, cases, names, pts, None, onout, mirrored_pair=linear_system.last_pair)
+    seen = compare(obs, rng, text, cases, names, pts, None, onout, mirrored_pair=linear_system.last_pair,
+                   vacuous_false_equalities=linear_system.vacuous_false_equalities)
     if (linear_system.last_pair or '').startswith('contradictory'):
         contradiction_check(obs, text, cases, names, onout + pts, linear_system.last_pair)
     # was a flip decision needed?  (the variable simplify isolated had a negative coefficient in an inequality)
@@ -291,7 +294,10 @@ def run_solve(rng, obs):
         obs.violation('same:solve returns a solved form for a consistent linear system', text=text, result=repr(res)[:100]); return
     rows = [(a, '=', bi) for a, bi in zip(A, b)]
     pts = sample_points(rng, n, rows, 40)
-    seen = compare(obs, rng, text, (res,), names, pts, None, points_on_output(rng, (res,), names, 40))
+    import re
+    nums = [abs(float(t)) for t in re.findall(r'(?<![A-Za-z_0-9.])\d+\.?\d*(?:[eE][-+]?\d+)?', res)]
+    seen = compare(obs, rng, text, (res,), names, pts, None, points_on_output(rng, (res,), names, 40), solve=True,
+                   max_number_in_result=max(nums) if nums else 0.0, max_number_in_input=max(max(abs(c) for a in A for c in a), max(abs(v) for v in b)))
     obs.check(len(T.lines(res)) == m, 'same:the solved form has one line per independent equation', text=text, result=res)
     obs.nontrivial = True in seen and False in seen
     obs.notes = {'result': res}
